@@ -146,7 +146,7 @@ let mode_sched casefile =
              | "one" -> run_sched_load inflate data (List.init (n + 8) (fun _ -> Short XH))
              | "chunks" -> run_sched_load inflate data (chunk_schedule (arg 0) (Int64.to_int (arg 1)) false (n + 8))
              | "intr" -> run_sched_load inflate data (chunk_schedule (arg 0) (Int64.to_int (arg 1)) true (n + 8))
-             | "hard" -> let lim = min (Int64.to_int (arg 0)) n in
+             | "hard" | "once" -> let lim = min (Int64.to_int (arg 0)) n in
                          run_fault_load inflate data (z_of_int lim) (z_of_int (Int64.to_int (arg 1)))
              | _ -> load inflate data in
            (match r with
